@@ -4,7 +4,4 @@ package secp256k1
 
 func init() {
 	VerifAddComplete = func(v, p, q *Point) *Point { return v.addComplete(p, q) }
-	VerifAddMixed = func(v, p *Point, x2, y2 *VerifFE) *Point { return v.addMixed(p, x2, y2) }
-	VerifDoubleComplete = func(v, p *Point) *Point { return v.doubleComplete(p) }
-	VerifRescale = func(v, p *Point) *Point { return v.rescale(p) }
 }
